@@ -94,6 +94,9 @@ class Operand:
             return self.expr
         if isinstance(r, str):
             return r
+        if isinstance(r, tuple) and r[0] == 'closure':
+            _, params, ninv, sel = r
+            return '|%s| (%s)%s' % (params, ref_expr(ninv), sel)
         return ref_expr(r)      # a nested invocation
 
     def ref_block(self):
@@ -278,8 +281,41 @@ def value_operand(ctx, ty, failable=None):
 # ------------------------------------------------------------------------------------------
 # synchronous action candidates
 # ------------------------------------------------------------------------------------------
+def nested_closure_cb(ctx, fn, argtys, ret, failable):
+    """operand shape (d): a closure literal whose body is a nested macro invocation evaluating the callback:
+    `|x: T| join_spawn! { (w::m(e))(x), w::init::<w::Tok>(e2) }.0` — one invocation instance per call"""
+    if ctx.async_depth > 0:
+        kind, two = 'join', ctx.chance(0.5)
+    else:
+        kind, two = ctx.rng.choice(['join', 'join_spawn', 'spawn']), ctx.chance(0.6)
+    ctx.nest_budget -= 1
+    inv = Inv(ctx.next_inv, kind, False, False, '')
+    ctx.next_inv += 1
+    ctx.invs.append(inv)
+    saved = (ctx.cur_inv, ctx.cur_branch, ctx.cur_step)
+    ctx.cur_inv, ctx.cur_branch, ctx.cur_step = inv.inv, 0, 0
+    e = ctx.ev('Call', failable)
+    call = '(w::%s(%d))(%s)' % (fn, e, ', '.join('x%d' % i for i in range(len(argtys))))
+    b0 = Branch(None, False, Operand(call), [[]], [ret], 0)
+    inv.branches.append(b0)
+    if two:
+        ctx.cur_branch = 1
+        e2 = ctx.ev('Init', False)
+        inv.branches.append(Branch(None, False, Operand('w::init::<w::Tok>(%d)' % e2), [[]], [TOK], 1))
+    ctx.cur_inv, ctx.cur_branch, ctx.cur_step = saved
+    inv.result_ty = ret
+    params = ', '.join('x%d: %s' % (i, rs(a)) for i, a in enumerate(argtys))
+    sel = '.0' if two else ''
+    macro = '|%s| %s%s' % (params, macro_expr(inv, kind), sel)
+    op = Operand(macro, ref_expr=('closure', params, inv, sel))
+    return op
+
+
 def cb(ctx, fn, argtys, ret, failable=False, byref=False, tf=None):
     """callback operand `w::<fn>(ev)`"""
+    if (not byref and argtys and ret is not None and all(is_val(a) for a in argtys) and is_val(ret) and ctx.nest_budget > 0 and not ctx.in_capture
+            and fn in ('m', 'flat', 'at_o', 'at_r', 'fm', 'am') and ctx.chance(ctx.p.get('nest_closure', 0.0))):
+        return nested_closure_cb(ctx, fn, argtys, ret, failable)
     e = ctx.ev('Call', failable)
     expr = 'w::%s(%d)' % (fn, e)
     turbofish = None
@@ -1554,7 +1590,7 @@ PROFILES = {
     'handler': dict(branches=(1, 5), depth=(1, 2), acts=(0, 2), wrappers=0.2, wrap_depth=1, captures=0.1, names=0.2, handler=1.0,
                     handler_anywhere=0.5, closures=0.1, turbofish=0.0, sync_prefix=0.3),
     'nest': dict(branches=(1, 3), depth=(1, 3), acts=(0, 2), wrappers=0.15, wrap_depth=1, captures=0.3, names=0.25, handler=0.5,
-                 closures=0.05, turbofish=0.0, sync_prefix=0.3, nest=0.5, nest_cap=0.35, nest_handler=0.4, nest_depth=3),
+                 closures=0.05, turbofish=0.0, sync_prefix=0.3, nest=0.5, nest_cap=0.35, nest_handler=0.4, nest_depth=3, nest_closure=0.12),
     'pos': dict(branches=(1, 5), depth=(1, 4), acts=(0, 1), wrappers=0.0, captures=0.1, names=0.3, handler=0.35, closures=0.0,
                 turbofish=0.0, sync_prefix=0.0, same_typed=True,
                 ops={'map': 3, 'then': 1, 'inspect': 1, 'and_then': 2, 'or_else': 1, 'or': 1, 'map_err': 1, 'filter': 0, 'dot': 0, 'zip': 0,
